@@ -324,12 +324,49 @@ def crafted() -> list[dict]:
                       F("OnLiteral", "bool", default=True), F("OnText", "bool", default="true"),
                       F("OffLiteral", "bool", default=False), F("OnUpper", "bool", default="TRUE"),
                       F("TaggedOn", "bool", taggedVersions="0+", tag=2, default=True)]}
+    # two definitions (parsed one after the other) that each declare a common structure of the same
+    # name with different members; in the second one it is referenced *before* its declaration by
+    # another common structure (each file is its own name space; the order in which the generator
+    # visits the files is the directory's, hence the symmetric pair)
+    d14a = {"type": "response", "name": "Zc14AlphaResponse", "apiKey": 1903, "validVersions": "0", "flexibleVersions": "0+",
+            "fields": [F("Groups", "[]Zc14Outer")],
+            "commonStructs": [{"name": "Zc14Outer", "versions": "0+",
+                               "fields": [F("GroupId", "string"), F("Results", "[]Zc14Result")]},
+                              {"name": "Zc14Result", "versions": "0+",
+                               "fields": [F("PartitionIndex", "int32"), F("ErrorCode", "int16")]}]}
+    d14b = {"type": "response", "name": "Zc14BetaResponse", "apiKey": 1904, "validVersions": "0", "flexibleVersions": "0+",
+            "fields": [F("Topics", "[]Zc14Wrapper")],
+            "commonStructs": [{"name": "Zc14Wrapper", "versions": "0+",
+                               "fields": [F("Name", "string"), F("Results", "[]Zc14Result")]},
+                              {"name": "Zc14Result", "versions": "0+",
+                               "fields": [F("PartitionIndex", "int32"), F("LeaderEpoch", "int32"), F("HighWatermark", "int64")]}]}
     out = [d1, d2, d3, d7, d8, d9, *d10, d11, d12, d13]
     for key, stem in ((7, "Zc3Shutdown"), (18, "Zc4Versions")):
         for kind in ("request", "response"):
             out.append({"type": kind, "name": stem + kind.capitalize(), "apiKey": key, "validVersions": "0-4",
                         "flexibleVersions": "3+", "fields": [F("BrokerId", "int32", entityType="brokerId"),
                                                             F("Epoch", "int64", versions="2+", default="-1")]})
+    return out
+
+
+def crafted_same_name_commons() -> list[dict]:
+    """four definitions that each declare a common structure of the same name with different members,
+    referenced *before* its declaration by another common structure of the file (each file is its own
+    name space).  A generation set of their own: with four of them and two header definitions, two are
+    visited consecutively whatever order the directory yields."""
+    def F(name, typ, versions="0+", **kw):
+        return {"name": name, "type": typ, "versions": versions, **kw}
+    out = []
+    members = {"Alpha": [F("PartitionIndex", "int32"), F("ErrorCode", "int16")],
+               "Beta": [F("PartitionIndex", "int32"), F("LeaderEpoch", "int32"), F("HighWatermark", "int64")],
+               "Gamma": [F("Topic", "string"), F("Lag", "int64")],
+               "Delta": [F("Flag", "bool")]}
+    for n, (tag, ms) in enumerate(members.items()):
+        out.append({"type": "response", "name": f"Zc14{tag}Response", "apiKey": 1910 + n, "validVersions": "0",
+                    "flexibleVersions": "0+", "fields": [F("Groups", "[]Zc14Outer")],
+                    "commonStructs": [{"name": "Zc14Outer", "versions": "0+",
+                                       "fields": [F("GroupId", "string"), F("Results", "[]Zc14Result")]},
+                                      {"name": "Zc14Result", "versions": "0+", "fields": ms}]})
     return out
 
 
